@@ -67,6 +67,9 @@ fn fault_plan(crash_at: Option<u64>, collect: CollectPlan, budget: u64) -> Plan 
     p.collect = collect;
     p.budget = budget;
     p.exact = true;
+    // a violation of another property (e.g. a reachable object reclaimed: C03) must not cut the run
+    // short: C04's own oracles (is the result valid? released once?) need the run to finish
+    p.stop_on_finding = false;
     p
 }
 
